@@ -23,6 +23,18 @@ from . import spshim
 from .term import RF, OutsideFragment
 
 NATIVE_TOL = 1e-6
+
+
+def tiny_load_mask(cond):
+    """the documented exemption of CreateRHS: the mask |x| < 1e-6 with the constant threshold 1e-6 and nothing else"""
+    if not isinstance(cond, S.SymBool) or cond.op != '>':
+        return False
+    p = cond.val.p
+    if len(p) != 2 or p.get(S.ONE) != Fraction(1, 1000000):
+        return False
+    (m, c), = [(m, c) for m, c in p.items() if m != S.ONE]
+    return c == -1 and len(m) == 1 and m[0][1] == 1 and S.A.kind[m[0][0]] == 'rad' and S.A.info[m[0][0]][0] == 2
+_ANGLE_DEG = re.compile(r"(^|\.)(alpha|beta)(\[|$)")
 import mpmath
 MP = mpmath.mp.clone()
 MP.dps = 40
@@ -77,6 +89,7 @@ class Env:
         self.z3_disagreements = []
         self.abs_roundoff = None
         self.indicator_branch = None   # 0/1: obligations are stated on the branch where every mask indicator has this value
+        self.indicator_only = None     # predicate on the indicator's condition: only those masks are exempted
         if self.sym:
             self.xp = npshim.make(True)
             self.pi = self.xp.pi
@@ -85,10 +98,26 @@ class Env:
             self.pi = np.pi
 
     # ------------------------------------------------------------------ variables
+    def is_log(self, name):
+        for r in self.ranges:
+            if re.search(r[0], name):
+                return len(r) > 3 and r[3] == "log"
+        return False
+
+    def sample(self, name, rng):
+        """random admissible value of a variable; ranges flagged "log" are sampled log-uniformly"""
+        lo, hi = self.varnames.get(name) or self.range_for(name)
+        if self.is_log(name) and lo > 0:
+            return lo * (hi / lo) ** rng.random()
+        return lo + (hi - lo) * rng.random()
+
     def range_for(self, name):
-        for rx, lo, hi in self.ranges:
+        for r in self.ranges:
+            rx, lo, hi = r[0], r[1], r[2]
             if re.search(rx, name):
                 return lo, hi
+        if _ANGLE_DEG.search(name):
+            return 3.0, 15.0                      # angles given in degrees
         return 0.3, 1.7
 
     def add_ranges(self, *rs):
@@ -97,9 +126,8 @@ class Env:
     def native_value(self, ename):
         if ename in self.witness:
             return float(self.witness[ename])
-        lo, hi = self.range_for(ename)
         rng = random.Random(_stable_seed(self.seed, ename))
-        return lo + (hi - lo) * rng.random()
+        return self.sample(ename, rng)
 
     def var(self, name, shape=()):
         """fresh variable array (sym) / witness values (native)"""
@@ -226,7 +254,7 @@ class Env:
                 l = l if isinstance(l, RF) else RF.const(S._tofrac(l))
                 d = l - r
                 if self.indicator_branch is not None and d.p:
-                    d = S.subs_indicators(d, self.indicator_branch)
+                    d = S.subs_indicators(d, self.indicator_branch, self.indicator_only)
                 if d.p:
                     d = self._drop_roundoff(d, l, r)
                 d0 = d if (isinstance(d, RF) and d.p and not d.is_const()) else None
@@ -297,11 +325,21 @@ class Env:
         if d.is_const():
             o.refuted.append(dict(entry=list(idx), witness=dict(self.pins), value=float(d.cval()), reason="constant non-zero difference"))
             return False
+        # refute first: a difference that is visibly non-zero at a sampled admissible point needs no normal form (the
+        # normal form of a genuinely non-zero rational function can be far larger than that of a zero one)
+        w = self.find_witness(d, tries=2)
+        if w is not None:
+            o.refuted.append(dict(entry=list(idx), witness=w[0], value=w[1]))
+            return False
         try:
             if S.iszero(d):
                 return True
         except S.TooBig as e:
-            o.undecided.append(dict(entry=list(idx), reason="normal form too large (%s monomials)" % e))
+            w = self.find_witness(d)
+            if w is not None:
+                o.refuted.append(dict(entry=list(idx), witness=w[0], value=w[1]))
+            else:
+                o.undecided.append(dict(entry=list(idx), reason="normal form too large (%s monomials)" % e))
             return False
         # non-zero normal form: search a numerical witness (not a refutation by itself)
         w = self.find_witness(d)
@@ -322,8 +360,21 @@ class Env:
             elif isinstance(c, tuple) and c and c[0] == 'argmax':
                 for x in c[2]:
                     vs |= S.term_deps(x)
+            elif isinstance(c, tuple) and c and c[0] == 'alleq':
+                for x in c[1]:
+                    vs |= S.term_deps(x)
         vars_ = sorted(vs)
+        # an array comparison taken as equal: each  a - b == 0  between two variables ties b to a
+        ties = []
+        for c, b in self.path_conds:
+            if b and isinstance(c, tuple) and c and c[0] == 'alleq':
+                for x in c[1]:
+                    pr = _solve_pair(x)
+                    if pr:
+                        ties.append(pr)
         rng = random.Random(_stable_seed(self.seed, "w", len(d.p)))
+        best = None
+        found = 0
         for t in range(tries or self.max_witness_tries):
             env = {}
             named = dict(self.pins)
@@ -334,11 +385,14 @@ class Env:
                 elif nm in self.pins:
                     v = self.pins[nm]
                 else:
-                    lo, hi = self.varnames.get(nm) or self.range_for(nm)
-                    v = lo + (hi - lo) * rng.random()
-                    v = float(Fraction(v).limit_denominator(1000))
+                    v = self.sample(nm, rng)
+                    v = float(Fraction(v).limit_denominator(1000)) if abs(v) > 0.05 else float("%.3g" % v)
                 env[a] = v
                 named[nm] = v
+            for keep, tied in ties:
+                if keep in env and tied in env:
+                    env[tied] = env[keep]
+                    named[S.A.names[tied]] = env[keep]
             try:
                 if not self._path_ok(env):
                     continue
@@ -358,7 +412,16 @@ class Env:
                 except (S.Undefined, ZeroDivisionError, ValueError):
                     continue
                 if abs(v2) > 1e-9 * max(sc, 1e-300) and abs(v2) > 1e-14:
-                    return named, v2
+                    # prefer a witness at which the difference is large compared with the terms it is made of (a weak one
+                    # may drown in the round-off of the native replay): look at a few more points unless this one is strong
+                    strength = abs(v2) / (1.0 + sc)
+                    if best is None or strength > best[2]:
+                        best = (named, v2, strength)
+                    found += 1
+                    if strength > 1e-4 or found >= 4:
+                        return best[0], best[1]
+        if best is not None:
+            return best[0], best[1]
         return None
 
     def _path_ok(self, env):
@@ -399,8 +462,11 @@ class Env:
             return o
         return None
 
-    def holds(self, prop, name, cond, detail=None):
-        """a concrete boolean obligation (index arithmetic, structure): decided by evaluation"""
+    def holds(self, prop, name, cond, detail=None, static=False):
+        """a concrete boolean obligation (index arithmetic, structure): decided by evaluation.  static=True: a condition on
+        the program text (frame scan); its failure is reported without a failing input"""
+        if static and not self.sym:
+            return None
         o = self._new(prop, name, "concrete") if self.sym else None
         if o is not None:
             o.n = 1
@@ -540,6 +606,23 @@ class Env:
             yield self.path_conds, res
         self.path_conds = saved
         self.pins = saved_pins
+
+
+def _solve_pair(d):
+    """d == 0 with d = +-(a - b), a and b variables -> (atom kept, atom tied to it); the one named P.* is the tied one"""
+    if len(d.p) != 2:
+        return None
+    vs = []
+    for m, c in d.p.items():
+        if m == S.ONE or len(m) != 1 or m[0][1] != 1 or S.A.kind[m[0][0]] != 'var' or abs(c) != 1:
+            return None
+        vs.append((m[0][0], c))
+    if vs[0][1] + vs[1][1] != 0:
+        return None
+    a, b = vs[0][0], vs[1][0]
+    if S.A.names[a].startswith("P."):
+        a, b = b, a
+    return a, b
 
 
 def _solve_pin(d):
@@ -736,6 +819,9 @@ def _taken_ok(taken, env):
             ismax = all(vals[i] > v for j, v in enumerate(vals) if j != i)
             if ismax != b:
                 return False
+        elif isinstance(cond, tuple) and cond and cond[0] == 'alleq':
+            if all(abs(S.evalf(x, env)) < 1e-12 for x in cond[1]) != b:
+                return False
     return True
 
 
@@ -756,6 +842,8 @@ def crosscheck(env, jb, kw, seed):
         for k_, c, b_ in taken:
             if isinstance(c, tuple) and c and c[0] == 'argmax':
                 terms += [x for x in c[2] if isinstance(x, RF)]
+            if isinstance(c, tuple) and c and c[0] == 'alleq':
+                terms += list(c[1])
         vars_ = sorted(S.all_vars(terms))
         rng = random.Random(_stable_seed(seed, "xc", key))
         done = False
